@@ -269,12 +269,20 @@ func (n *node) ChildrenByType(match NodeType) []Node {
 		for _, nd := range n.Children() {
 			switch nd.Type() {
 			case NodeContainer, NodeLeaf, NodeLeafList, NodeList:
+				// The implicit case belongs where the node it wraps
+				// belongs (the node may have been added by an augment
+				// or copied by a uses of another module than the choice)
+				src := n
+				if w, ok := nd.(*node); ok && w.tree != nil {
+					src = w
+				}
 				newnd := newNodeByType(NodeCase,
-					n.tree,
+					src.tree,
 					item{pos: nd.position(), val: "case"},
 					nd.Name(),
 					[]Node{nd},
 					&Scope{tenv: n.tenv, genv: n.genv}, nil)
+				newnd.useTree = src.useTree
 				n.ReplaceChild(nd, newnd)
 			}
 		}
